@@ -58,6 +58,41 @@ Theorem C10_established_unaffected : forall parse_all s evs c,
 Proof. exact established_alone. Qed.
 Print Assumptions C10_established_unaffected.
 
+(* ISOLATION ON THE JT808 SERVER, exact form.  The registry is part of the server state (a key is held by the
+   live connection that joined under it: join on the first message of a registered type, refusal when another
+   live connection holds the key, release when the connection ends - the mechanism of C11).  Removing every event
+   of connection c changes nothing for any other connection, provided nobody claims a key while c OWNS it
+   (unclaimed, computed along the run; claimed_key = the terminal number of the first message of a read that
+   reaches the join).  c itself may claim anything, also the key of an established session: it is refused, owns
+   nothing, and the hypothesis holds (C10_unclaimed_keyless, C10_established_unaffected).  The hypothesis cannot
+   be dropped: C10_ownership_is_visible - the first owner of a key keeps it and a later claimant is ended, which
+   is the registry working as C11 specifies (C11_refused_leaves_first_alone), not a containment failure. *)
+Theorem C10_isolation_808 : forall parse_all evs c c', c' <> c -> unclaimed parse_all c init808 evs = true ->
+  seen808 c' (run808 parse_all evs) = seen808 c' (run808 parse_all (without c evs)).
+Proof. exact isolation_808_unclaimed. Qed.
+Print Assumptions C10_isolation_808.
+
+(* the registry inside the server state has the invariant C11 proves for its own model (C11_unique_owner): in
+   every reachable state at most one live connection holds a given key *)
+Theorem C10_registry_one_owner : forall parse_all evs c1 c2 k1 k2 key,
+  cfind c1 (v_conns (run808 parse_all evs)) = Some k1 -> cfind c2 (v_conns (run808 parse_all evs)) = Some k2 ->
+  k_key k1 = Some key -> k_key k2 = Some key -> c1 = c2.
+Proof. exact registry_one_owner. Qed.
+Print Assumptions C10_registry_one_owner.
+
+(* a connection that owns no key at any time - it never joined, or whatever it claimed was refused - is unclaimed *)
+Theorem C10_unclaimed_keyless : forall parse_all c evs s,
+  (forall pre, holds_no_key c (fold_left (step808 parse_all) pre s) = true) -> unclaimed parse_all c s evs = true.
+Proof. exact unclaimed_keyless. Qed.
+Print Assumptions C10_unclaimed_keyless.
+
+(* the registry consults at most one key per read: the one of the first message that reaches the join *)
+Theorem C10_one_key_per_read : forall parse_all t1 t2 now k d,
+  (forall key, claimed_key now k d = Some key -> t1 key = t2 key) ->
+  conn_data parse_all t1 now k d = conn_data parse_all t2 now k d.
+Proof. exact conn_data_claimed. Qed.
+Print Assumptions C10_one_key_per_read.
+
 (* a connection that never joins (garbage, broken frames, unknown ids, only 0x8003) satisfies iso_ok *)
 Theorem C10_iso_unjoined : forall parse_all c evs s,
   (forall pre, holds_no_key c (fold_left (step808 parse_all) pre s) = true) -> iso_ok parse_all c s evs = true.
@@ -125,6 +160,17 @@ Example C10_ex_808 :
   snd (seen808 1 (run808 false ex_evs)) = true /\
   map o_seq (fst (seen808 2 (run808 false ex_evs))) = [0; 1] /\
   seen808 2 (run808 false ex_evs) = seen808 2 (run808 false (without 1 ex_evs)).
+Proof. vm_compute. repeat split; reflexivity. Qed.
+
+(* why C10_isolation_808 needs its hypothesis: connection 1 joins first under terminal 012345678901 and OWNS the
+   key; connection 2 then claims the same number and is ended; without connection 1 it is served *)
+Example C10_ownership_is_visible :
+  let evs := [Connect 1; Data 1 0 ex_hb; Connect 2; Data 2 0 ex_hb] in
+  unclaimed false 1 init808 evs = false /\
+  snd (seen808 2 (run808 false evs)) = true /\ snd (seen808 2 (run808 false (without 1 evs))) = false /\
+  (* the other way round the claimant is refused and the owner is untouched *)
+  unclaimed false 2 init808 evs = true /\
+  seen808 1 (run808 false evs) = seen808 1 (run808 false (without 2 evs)).
 Proof. vm_compute. repeat split; reflexivity. Qed.
 
 (* a client that pipelines heartbeats, stops receiving (every later conn.Write fails) and goes away: the
